@@ -115,9 +115,20 @@ package cache
 //@ loop 1 invariant forall u: string :: (u in result) == (visited(u) && (u in r.cache))
 //@ loop 1 invariant forall u: string :: (u in result) ==> result[u] == r.cache[u]
 
+// vfi(m, cols): the index value of model m for the index over cols; vfiOK: it
+// exists (no error). valueFromIndex is reflection + gob + sha256 over the
+// indexed columns and is trusted to compute exactly this pure function.
+//@ ghost func vfiOK(model.Model, []model.ColumnKey) bool
+//@ ghost func vfi(model.Model, []model.ColumnKey) interface{}
 //@ func valueFromIndex
-//@ trusted "reflection + gob + sha256 over the indexed columns of the model; reads only"
+//@ trusted "reflection + gob + sha256 over the indexed columns of the model; reads only; a pure function of the model and the column keys"
 //@ pure
+//@ ensures (err == nil) == vfiOK(info.Obj, columnKeys)
+//@ ensures_ok result0 == vfi(info.Obj, columnKeys)
+// indexes over atomic, optional and map-key columns yield comparable values (an
+// index over a whole set or map column would panic as a Go map key; no such
+// index is in the quantifier of C05/C06)
+//@ ensures_ok hashable(result0)
 
 //@ pred FreshModels(m map[string]model.Model) := forall u: string :: (u in m) && m[u] != nil ==> fresh(ptrof(m[u]))
 
@@ -146,12 +157,17 @@ package cache
 //@ pure
 //@ ensures result == (s.indexType == 0)
 
+// a staging map (addIndexes / removeIndexes): fresh, pairwise distinct, initially empty inner maps
+//@ pred StagingWF(c columnToValue) := c != nil && (forall x: index :: (x in c) ==> (c[x] != nil && fresh(c[x]))) && (forall x: index, y: index :: x != y && (x in c) && (y in c) ==> c[x] != c[y])
+//@ pred StagingEmptyFrom(r *RowCache, c columnToValue, n int) := forall i: int, v: interface{} :: n < i && i < len(r.indexSpecs) ==> !(v in c[r.indexSpecs[i].index])
 //@ func (*RowCache).newIndexes
 //@ requires r != nil
 //@ modifies nothing
 //@ ensures result != nil && fresh(result)
 //@ ensures forall i: int :: 0 <= i && i < len(r.indexSpecs) ==> ((r.indexSpecs[i].index in result) && result[r.indexSpecs[i].index] != nil && fresh(result[r.indexSpecs[i].index]))
-//@ loop 1 invariant c != nil && fresh(c)
+//@ ensures StagingWF(result) && StagingEmptyFrom(r, result, 0 - 1)
+//@ loop 1 invariant c != nil && fresh(c) && StagingWF(c)
+//@ loop 1 invariant forall x: index, v: interface{} :: (x in c) ==> !(v in c[x])
 //@ loop 1 invariant forall i: int :: 0 <= i && i <= rangeindex ==> ((r.indexSpecs[i].index in c) && c[r.indexSpecs[i].index] != nil && fresh(c[r.indexSpecs[i].index]))
 
 //@ func NewErrCacheInconsistent
@@ -263,3 +279,235 @@ package cache
 //@ at call cache.(*TableCache).ApplyCacheUpdate requires wheld(t.mutex) >= 1
 //@ func (*TableCache).Populate2
 //@ at call cache.(*TableCache).ApplyCacheUpdate requires wheld(t.mutex) >= 1
+
+// ---- index exactness (C05) -----------------------------------------------------------
+// IDX(r,i) is the value->uuids map of index i, COLS(r,i) its column keys.
+//@ pred IdxWFMaps(r *RowCache) := r != nil && r.indexes != nil && allocated(r.indexes) && (forall i: int :: 0 <= i && i < len(r.indexSpecs) ==> (r.indexSpecs[i].index in r.indexes)) && (forall x: index :: (x in r.indexes) ==> (r.indexes[x] != nil && allocated(r.indexes[x]))) && (forall i: int, j: int :: 0 <= i && i < j && j < len(r.indexSpecs) ==> r.indexSpecs[i].index != r.indexSpecs[j].index) && (forall x: index, y: index :: x != y && (x in r.indexes) && (y in r.indexes) ==> r.indexes[x] != r.indexes[y])
+//@ pred IdxWFSets(r *RowCache) := forall x: index, v: interface{} :: (x in r.indexes) && r.indexes[x] != nil && (v in r.indexes[x]) ==> (r.indexes[x][v] != nil && allocated(r.indexes[x][v]) && len(r.indexes[x][v]) > 0)
+//@ pred IdxWFSetsDistinct(r *RowCache) := forall x1: index, v1: interface{}, x2: index, v2: interface{} :: (x1 != x2 || v1 != v2) && (x1 in r.indexes) && (x2 in r.indexes) && r.indexes[x1] != nil && r.indexes[x2] != nil && (v1 in r.indexes[x1]) && (v2 in r.indexes[x2]) ==> r.indexes[x1][v1] != r.indexes[x2][v2]
+//@ pred IdxWF(r *RowCache) := IdxWFMaps(r) && IdxWFSets(r) && IdxWFSetsDistinct(r)
+//@ pred SpecsSame(r *RowCache) := r.indexSpecs == old(r.indexSpecs) && (forall i: int :: 0 <= i && i < len(r.indexSpecs) ==> (r.indexSpecs[i].index == old(r.indexSpecs[i].index) && r.indexSpecs[i].columns == old(r.indexSpecs[i].columns) && r.indexSpecs[i].indexType == old(r.indexSpecs[i].indexType)))
+//@ pred InIdx(r *RowCache, i int, v interface{}, u string) := (v in r.indexes[r.indexSpecs[i].index]) && (u in r.indexes[r.indexSpecs[i].index][v])
+//@ pred HasVal(r *RowCache, i int, v interface{}, u string) := (u in r.cache) && vfiOK(r.cache[u], r.indexSpecs[i].columns) && vfi(r.cache[u], r.indexSpecs[i].columns) == v
+//@ pred IdxExact(r *RowCache) := forall i: int, v: interface{}, u: string :: 0 <= i && i < len(r.indexSpecs) ==> (InIdx(r, i, v, u) == HasVal(r, i, v, u))
+
+// Delete keeps the indexes exact: afterwards an index entry (value v, uuid u)
+// exists exactly when u is a cached row whose index value is v.
+// every index map and index set existed when the function was entered (none is a staging object)
+//@ pred IdxOld(r *RowCache) := (forall x: index :: (x in r.indexes) ==> !fresh(r.indexes[x])) && (forall x: index, v: interface{} :: (x in r.indexes) && (v in r.indexes[x]) ==> !fresh(r.indexes[x][v]))
+//@ pred StagedOK(r *RowCache, m model.Model, n int) := forall i: int :: 0 <= i && i <= n && i < len(r.indexSpecs) ==> (vfiOK(m, r.indexSpecs[i].columns) && hashable(vfi(m, r.indexSpecs[i].columns)))
+//@ pred StagedKeys(r *RowCache, c columnToValue, m model.Model, n int) := forall i: int, v: interface{} :: 0 <= i && i <= n && i < len(r.indexSpecs) ==> ((v in c[r.indexSpecs[i].index]) == (v == vfi(m, r.indexSpecs[i].columns)))
+//@ pred StagedSets(r *RowCache, c columnToValue, m model.Model, n int) := forall i: int :: 0 <= i && i <= n && i < len(r.indexSpecs) ==> (c[r.indexSpecs[i].index][vfi(m, r.indexSpecs[i].columns)] != nil && fresh(c[r.indexSpecs[i].index][vfi(m, r.indexSpecs[i].columns)]))
+//@ pred StagedHas(r *RowCache, c columnToValue, m model.Model, uuid string, n int) := forall i: int :: 0 <= i && i <= n && i < len(r.indexSpecs) ==> ((uuid in c[r.indexSpecs[i].index][vfi(m, r.indexSpecs[i].columns)]) && len(c[r.indexSpecs[i].index][vfi(m, r.indexSpecs[i].columns)]) > 0)
+//@ pred StagedUUID(r *RowCache, c columnToValue, m model.Model, uuid string, n int) := forall i: int, u: string :: 0 <= i && i <= n && i < len(r.indexSpecs) ==> ((u in c[r.indexSpecs[i].index][vfi(m, r.indexSpecs[i].columns)]) == (u == uuid))
+//@ pred StagingCovers(r *RowCache, c columnToValue) := forall i: int :: 0 <= i && i < len(r.indexSpecs) ==> ((r.indexSpecs[i].index in c) && c[r.indexSpecs[i].index] != nil && fresh(c[r.indexSpecs[i].index]))
+// entries of uuid removed from indexes 0..n (and, for index n+1, for visited values)
+//@ pred ExactMinus(r *RowCache, uuid string, n int) := forall i: int, v: interface{}, u: string :: 0 <= i && i < len(r.indexSpecs) ==> (InIdx(r, i, v, u) == (HasVal(r, i, v, u) && !(u == uuid && i <= n)))
+//@ func (*RowCache).Delete group idx
+//@ requires IdxWF(r) && IdxExact(r)
+//@ ensures IdxWF(r) && IdxExact(r)
+//@ loop 1 invariant (uuid in r.cache) && oldRow == r.cache[uuid] && oldInfo != nil && oldInfo.Obj == oldRow
+//@ loop 1 invariant IdxWF(r)
+//@ loop 1 invariant IdxOld(r)
+//@ loop 1 invariant IdxExact(r)
+//@ loop 1 invariant StagingWF(removeIndexes) && fresh(removeIndexes)
+//@ loop 1 invariant StagingCovers(r, removeIndexes)
+//@ loop 1 invariant StagedOK(r, oldRow, rangeindex)
+//@ loop 1 invariant StagedKeys(r, removeIndexes, oldRow, rangeindex)
+//@ loop 1 invariant StagedSets(r, removeIndexes, oldRow, rangeindex)
+//@ loop 1 invariant StagedUUID(r, removeIndexes, oldRow, uuid, rangeindex)
+//@ loop 1 invariant StagingEmptyFrom(r, removeIndexes, rangeindex)
+//@ loop 2 invariant (uuid in r.cache) && oldRow == r.cache[uuid]
+//@ loop 2 invariant IdxWF(r)
+//@ loop 2 invariant IdxOld(r)
+//@ loop 2 invariant StagingWF(removeIndexes)
+//@ loop 2 invariant StagingCovers(r, removeIndexes)
+//@ loop 2 invariant StagedOK(r, oldRow, len(r.indexSpecs))
+//@ loop 2 invariant StagedKeys(r, removeIndexes, oldRow, len(r.indexSpecs))
+//@ loop 2 invariant StagedSets(r, removeIndexes, oldRow, len(r.indexSpecs))
+//@ loop 2 invariant StagedUUID(r, removeIndexes, oldRow, uuid, len(r.indexSpecs))
+//@ loop 2 invariant ExactMinus(r, uuid, rangeindex)
+//@ loop 3 invariant (uuid in r.cache) && oldRow == r.cache[uuid]
+//@ loop 3 invariant IdxWF(r)
+//@ loop 3 invariant IdxOld(r)
+//@ loop 3 invariant StagingWF(removeIndexes)
+//@ loop 3 invariant StagingCovers(r, removeIndexes)
+//@ loop 3 invariant StagedOK(r, oldRow, len(r.indexSpecs))
+//@ loop 3 invariant StagedKeys(r, removeIndexes, oldRow, len(r.indexSpecs))
+//@ loop 3 invariant StagedSets(r, removeIndexes, oldRow, len(r.indexSpecs))
+//@ loop 3 invariant StagedUUID(r, removeIndexes, oldRow, uuid, len(r.indexSpecs))
+//@ loop 3 invariant forall i: int, v: interface{}, u: string :: 0 <= i && i < len(r.indexSpecs) ==> (InIdx(r, i, v, u) == (HasVal(r, i, v, u) && !(u == uuid && (i <= rangeindex2 || (i == rangeindex2 + 1 && visited(v))))))
+
+// ---- Create: index entries afterwards, in terms of the cache before ----------
+// (schema indexes are single-valued: adding overwrites the entry; client
+// indexes are sets: adding is a union)
+//@ pred IdxOldMaps(r *RowCache) := forall x: index :: (x in r.indexes) ==> !fresh(r.indexes[x])
+//@ pred StagedDistinct(r *RowCache, c columnToValue, m model.Model, n int) := forall i: int, j: int :: 0 <= i && i < j && j <= n && j < len(r.indexSpecs) ==> c[r.indexSpecs[i].index][vfi(m, r.indexSpecs[i].columns)] != c[r.indexSpecs[j].index][vfi(m, r.indexSpecs[j].columns)]
+// staged sets of the indexes not written yet are not in r.indexes
+//@ pred Sep(r *RowCache, c columnToValue, m model.Model, n int) := forall i: int, x: index, v: interface{} :: n < i && i < len(r.indexSpecs) && (x in r.indexes) && (v in r.indexes[x]) ==> r.indexes[x][v] != c[r.indexSpecs[i].index][vfi(m, r.indexSpecs[i].columns)]
+//@ pred Added(r *RowCache, m model.Model, uuid string, i int, v interface{}, u string) := (u == uuid && v == vfi(m, r.indexSpecs[i].columns)) || (HasVal(r, i, v, u) && !(r.indexSpecs[i].indexType == 0 && v == vfi(m, r.indexSpecs[i].columns)))
+//@ pred NoConflict(r *RowCache, m model.Model, uuid string, n int) := forall i: int, u: string :: 0 <= i && i <= n && i < len(r.indexSpecs) && r.indexSpecs[i].indexType == 0 && u != uuid ==> !HasVal(r, i, vfi(m, r.indexSpecs[i].columns), u)
+//@ func (*RowCache).Create group idx
+//@ requires IdxWF(r) && IdxExact(r) && r.dataType != nil
+//@ ensures IdxWF(r)
+//@ ensures_err IdxExact(r)
+//@ ensures_ok forall i: int, v: interface{}, u: string :: 0 <= i && i < len(r.indexSpecs) ==> (InIdx(r, i, v, u) == ((u == uuid && v == vfi(m, r.indexSpecs[i].columns)) || (old(HasVal(r, i, v, u)) && !(r.indexSpecs[i].indexType == 0 && v == vfi(m, r.indexSpecs[i].columns)))))
+//@ ensures_ok old(NoConflict(r, m, uuid, len(r.indexSpecs))) ==> IdxExact(r)
+//@ ensures_ok checkIndexes ==> IdxExact(r)
+//@ loop 1 invariant !(uuid in r.cache) && info != nil && info.Obj == m
+//@ loop 1 invariant SpecsSame(r)
+//@ loop 1 invariant IdxWFMaps(r)
+//@ loop 1 invariant IdxWFSets(r)
+//@ loop 1 invariant IdxWFSetsDistinct(r)
+//@ loop 1 invariant IdxOld(r)
+//@ loop 1 invariant IdxExact(r)
+//@ loop 1 invariant StagingWF(addIndexes) && fresh(addIndexes)
+//@ loop 1 invariant StagingCovers(r, addIndexes)
+//@ loop 1 invariant StagedOK(r, m, rangeindex)
+//@ loop 1 invariant StagedKeys(r, addIndexes, m, rangeindex)
+//@ loop 1 invariant StagedSets(r, addIndexes, m, rangeindex)
+//@ loop 1 invariant StagedUUID(r, addIndexes, m, uuid, rangeindex)
+//@ loop 1 invariant StagedHas(r, addIndexes, m, uuid, rangeindex)
+//@ loop 1 invariant StagedDistinct(r, addIndexes, m, rangeindex)
+//@ loop 1 invariant StagingEmptyFrom(r, addIndexes, rangeindex)
+//@ loop 1 invariant checkIndexes ==> NoConflict(r, m, uuid, rangeindex)
+//@ loop 2 invariant !(uuid in r.cache)
+//@ loop 2 invariant SpecsSame(r)
+//@ loop 2 invariant IdxWFMaps(r)
+//@ loop 2 invariant IdxWFSets(r)
+//@ loop 2 invariant IdxWFSetsDistinct(r)
+//@ loop 2 invariant IdxOldMaps(r)
+//@ loop 2 invariant StagingWF(addIndexes)
+//@ loop 2 invariant StagingCovers(r, addIndexes)
+//@ loop 2 invariant StagedOK(r, m, len(r.indexSpecs))
+//@ loop 2 invariant StagedKeys(r, addIndexes, m, len(r.indexSpecs))
+//@ loop 2 invariant StagedSets(r, addIndexes, m, len(r.indexSpecs))
+//@ loop 2 invariant StagedUUID(r, addIndexes, m, uuid, len(r.indexSpecs))
+//@ loop 2 invariant StagedHas(r, addIndexes, m, uuid, len(r.indexSpecs))
+//@ loop 2 invariant StagedDistinct(r, addIndexes, m, len(r.indexSpecs))
+//@ loop 2 invariant Sep(r, addIndexes, m, rangeindex)
+//@ loop 2 invariant checkIndexes ==> NoConflict(r, m, uuid, len(r.indexSpecs))
+//@ loop 2 invariant forall i: int, v: interface{}, u: string :: 0 <= i && i < len(r.indexSpecs) ==> (InIdx(r, i, v, u) == ite(i <= rangeindex, Added(r, m, uuid, i, v, u), HasVal(r, i, v, u)))
+//@ loop 3 invariant !(uuid in r.cache)
+//@ loop 3 invariant SpecsSame(r)
+//@ loop 3 invariant IdxWFMaps(r)
+//@ loop 3 invariant IdxWFSets(r)
+//@ loop 3 invariant IdxWFSetsDistinct(r)
+//@ loop 3 invariant IdxOldMaps(r)
+//@ loop 3 invariant StagingWF(addIndexes)
+//@ loop 3 invariant StagingCovers(r, addIndexes)
+//@ loop 3 invariant StagedOK(r, m, len(r.indexSpecs))
+//@ loop 3 invariant StagedKeys(r, addIndexes, m, len(r.indexSpecs))
+//@ loop 3 invariant StagedSets(r, addIndexes, m, len(r.indexSpecs))
+//@ loop 3 invariant StagedUUID(r, addIndexes, m, uuid, len(r.indexSpecs))
+//@ loop 3 invariant StagedHas(r, addIndexes, m, uuid, len(r.indexSpecs))
+//@ loop 3 invariant StagedDistinct(r, addIndexes, m, len(r.indexSpecs))
+//@ loop 3 invariant Sep(r, addIndexes, m, rangeindex2 + 1)
+//@ loop 3 invariant !visited(vfi(m, r.indexSpecs[rangeindex2 + 1].columns)) ==> (forall x: index, v: interface{} :: (x in r.indexes) && (v in r.indexes[x]) ==> r.indexes[x][v] != addIndexes[r.indexSpecs[rangeindex2 + 1].index][vfi(m, r.indexSpecs[rangeindex2 + 1].columns)])
+//@ loop 3 invariant checkIndexes ==> NoConflict(r, m, uuid, len(r.indexSpecs))
+//@ loop 3 invariant forall i: int, v: interface{}, u: string :: 0 <= i && i < len(r.indexSpecs) ==> (InIdx(r, i, v, u) == ite(i <= rangeindex2 || (i == rangeindex2 + 1 && visited(vfi(m, r.indexSpecs[i].columns))), Added(r, m, uuid, i, v, u), HasVal(r, i, v, u)))
+
+// ---- Update: index entries afterwards, in terms of the entries before -------
+// staging of Update for the indexes lo..hi: for an index whose value changes
+// (old value != new value) addIndexes holds {new value -> S}, removeIndexes
+// holds {old value -> S} with the same fresh set S = {uuid}; nothing for an
+// index whose value stays
+//@ pred UOK(r *RowCache, mo model.Model, mn model.Model, lo int, hi int) := forall i: int :: lo <= i && i <= hi && 0 <= i && i < len(r.indexSpecs) ==> (vfiOK(mo, r.indexSpecs[i].columns) && vfiOK(mn, r.indexSpecs[i].columns) && hashable(vfi(mo, r.indexSpecs[i].columns)) && hashable(vfi(mn, r.indexSpecs[i].columns)))
+//@ pred UKeysAdd(r *RowCache, a columnToValue, mo model.Model, mn model.Model, lo int, hi int) := forall i: int, v: interface{} :: lo <= i && i <= hi && 0 <= i && i < len(r.indexSpecs) ==> ((v in a[r.indexSpecs[i].index]) == ((vfi(mo, r.indexSpecs[i].columns) != vfi(mn, r.indexSpecs[i].columns)) && v == vfi(mn, r.indexSpecs[i].columns)))
+//@ pred UKeysRem(r *RowCache, d columnToValue, mo model.Model, mn model.Model, lo int, hi int) := forall i: int, v: interface{} :: lo <= i && i <= hi && 0 <= i && i < len(r.indexSpecs) ==> ((v in d[r.indexSpecs[i].index]) == ((vfi(mo, r.indexSpecs[i].columns) != vfi(mn, r.indexSpecs[i].columns)) && v == vfi(mo, r.indexSpecs[i].columns)))
+//@ pred USets(r *RowCache, a columnToValue, d columnToValue, mo model.Model, mn model.Model, uuid string, lo int, hi int) := forall i: int :: lo <= i && i <= hi && 0 <= i && i < len(r.indexSpecs) && (vfi(mo, r.indexSpecs[i].columns) != vfi(mn, r.indexSpecs[i].columns)) ==> (a[r.indexSpecs[i].index][vfi(mn, r.indexSpecs[i].columns)] != nil && fresh(a[r.indexSpecs[i].index][vfi(mn, r.indexSpecs[i].columns)]) && d[r.indexSpecs[i].index][vfi(mo, r.indexSpecs[i].columns)] == a[r.indexSpecs[i].index][vfi(mn, r.indexSpecs[i].columns)] && (uuid in a[r.indexSpecs[i].index][vfi(mn, r.indexSpecs[i].columns)]) && len(a[r.indexSpecs[i].index][vfi(mn, r.indexSpecs[i].columns)]) > 0)
+//@ pred UUUID(r *RowCache, a columnToValue, mo model.Model, mn model.Model, uuid string, lo int, hi int) := forall i: int, u: string :: lo <= i && i <= hi && 0 <= i && i < len(r.indexSpecs) && (vfi(mo, r.indexSpecs[i].columns) != vfi(mn, r.indexSpecs[i].columns)) ==> ((u in a[r.indexSpecs[i].index][vfi(mn, r.indexSpecs[i].columns)]) == (u == uuid))
+//@ pred UDistinct(r *RowCache, a columnToValue, mo model.Model, mn model.Model, lo int, hi int) := forall i: int, j: int :: lo <= i && i < j && j <= hi && 0 <= i && j < len(r.indexSpecs) && (vfi(mo, r.indexSpecs[i].columns) != vfi(mn, r.indexSpecs[i].columns)) && (vfi(mo, r.indexSpecs[j].columns) != vfi(mn, r.indexSpecs[j].columns)) ==> a[r.indexSpecs[i].index][vfi(mn, r.indexSpecs[i].columns)] != a[r.indexSpecs[j].index][vfi(mn, r.indexSpecs[j].columns)]
+// the staged sets of indexes lo..hi are not in r.indexes
+//@ pred USep(r *RowCache, a columnToValue, mo model.Model, mn model.Model, lo int, hi int) := forall i: int, x: index, v: interface{} :: lo <= i && i <= hi && 0 <= i && i < len(r.indexSpecs) && (vfi(mo, r.indexSpecs[i].columns) != vfi(mn, r.indexSpecs[i].columns)) && (x in r.indexes) && (v in r.indexes[x]) ==> r.indexes[x][v] != a[r.indexSpecs[i].index][vfi(mn, r.indexSpecs[i].columns)]
+// entries of index i after the add step / after add and remove, from the entries at entry
+//@ pred UAdded(r *RowCache, mo model.Model, mn model.Model, uuid string, i int, v interface{}, u string) := (u == uuid && v == vfi(mn, r.indexSpecs[i].columns)) || (old(InIdx(r, i, v, u)) && !(r.indexSpecs[i].indexType == 0 && v == vfi(mn, r.indexSpecs[i].columns)))
+//@ pred UDone(r *RowCache, mo model.Model, mn model.Model, uuid string, i int, v interface{}, u string) := ite((vfi(mo, r.indexSpecs[i].columns) != vfi(mn, r.indexSpecs[i].columns)), UAdded(r, mo, mn, uuid, i, v, u) && !(u == uuid && v == vfi(mo, r.indexSpecs[i].columns)), old(InIdx(r, i, v, u)))
+//@ pred UNoConflict(r *RowCache, mo model.Model, mn model.Model, uuid string, hi int) := forall i: int, u: string :: 0 <= i && i <= hi && i < len(r.indexSpecs) && r.indexSpecs[i].indexType == 0 && (vfi(mo, r.indexSpecs[i].columns) != vfi(mn, r.indexSpecs[i].columns)) && u != uuid ==> !InIdx(r, i, vfi(mn, r.indexSpecs[i].columns), u)
+//@ func (*RowCache).Update group idx
+//@ requires IdxWF(r)
+//@ ensures IdxWF(r)
+//@ ensures_err forall i: int, v: interface{}, u: string :: 0 <= i && i < len(r.indexSpecs) ==> (InIdx(r, i, v, u) == old(InIdx(r, i, v, u)))
+//@ ensures_ok forall i: int, v: interface{}, u: string :: 0 <= i && i < len(r.indexSpecs) ==> (InIdx(r, i, v, u) == UDone(r, old(r.cache[uuid]), m, uuid, i, v, u))
+//@ ensures_ok old(IdxExact(r)) && old(UNoConflict(r, r.cache[uuid], m, uuid, len(r.indexSpecs))) ==> IdxExact(r)
+//@ ensures_ok old(IdxExact(r)) && checkIndexes ==> IdxExact(r)
+//@ loop 1 invariant (uuid in r.cache) && oldRow != nil && (forall c: []model.ColumnKey :: vfiOK(oldRow, c) == vfiOK(r.cache[uuid], c) && (vfiOK(oldRow, c) ==> vfi(oldRow, c) == vfi(r.cache[uuid], c)))
+//@ loop 1 invariant SpecsSame(r)
+//@ loop 1 invariant IdxWFMaps(r)
+//@ loop 1 invariant IdxWFSets(r)
+//@ loop 1 invariant IdxWFSetsDistinct(r)
+//@ loop 1 invariant IdxOldMaps(r)
+//@ loop 1 invariant StagingWF(addIndexes) && StagingWF(removeIndexes)
+//@ loop 1 invariant StagingCovers(r, addIndexes) && StagingCovers(r, removeIndexes)
+//@ loop 1 invariant forall x: index, y: index :: (x in addIndexes) && (y in removeIndexes) ==> addIndexes[x] != removeIndexes[y]
+//@ loop 1 invariant oldInfo != nil && oldInfo.Obj == oldRow && newInfo != nil && newInfo.Obj == m
+//@ loop 1 invariant fresh(addIndexes) && fresh(removeIndexes)
+//@ loop 1 invariant IdxOld(r)
+//@ loop 1 invariant forall i: int, v: interface{}, u: string :: 0 <= i && i < len(r.indexSpecs) ==> (InIdx(r, i, v, u) == old(InIdx(r, i, v, u)))
+//@ loop 1 invariant UOK(r, oldRow, m, 0, rangeindex)
+//@ loop 1 invariant UKeysAdd(r, addIndexes, oldRow, m, 0, rangeindex)
+//@ loop 1 invariant UKeysRem(r, removeIndexes, oldRow, m, 0, rangeindex)
+//@ loop 1 invariant USets(r, addIndexes, removeIndexes, oldRow, m, uuid, 0, rangeindex)
+//@ loop 1 invariant UUUID(r, addIndexes, oldRow, m, uuid, 0, rangeindex)
+//@ loop 1 invariant UDistinct(r, addIndexes, oldRow, m, 0, rangeindex)
+//@ loop 1 invariant StagingEmptyFrom(r, addIndexes, rangeindex) && StagingEmptyFrom(r, removeIndexes, rangeindex)
+//@ loop 1 invariant 0 <= len(errs)
+//@ loop 1 invariant checkIndexes && len(errs) == 0 ==> UNoConflict(r, oldRow, m, uuid, rangeindex)
+//@ loop 2 invariant (uuid in r.cache) && oldRow != nil && (forall c: []model.ColumnKey :: vfiOK(oldRow, c) == vfiOK(r.cache[uuid], c) && (vfiOK(oldRow, c) ==> vfi(oldRow, c) == vfi(r.cache[uuid], c)))
+//@ loop 2 invariant SpecsSame(r)
+//@ loop 2 invariant IdxWFMaps(r)
+//@ loop 2 invariant IdxWFSets(r)
+//@ loop 2 invariant IdxWFSetsDistinct(r)
+//@ loop 2 invariant IdxOldMaps(r)
+//@ loop 2 invariant StagingWF(addIndexes) && StagingWF(removeIndexes)
+//@ loop 2 invariant StagingCovers(r, addIndexes) && StagingCovers(r, removeIndexes)
+//@ loop 2 invariant forall x: index, y: index :: (x in addIndexes) && (y in removeIndexes) ==> addIndexes[x] != removeIndexes[y]
+//@ loop 2 invariant UOK(r, oldRow, m, rangeindex + 1, len(r.indexSpecs))
+//@ loop 2 invariant UKeysAdd(r, addIndexes, oldRow, m, rangeindex + 1, len(r.indexSpecs))
+//@ loop 2 invariant UKeysRem(r, removeIndexes, oldRow, m, rangeindex + 1, len(r.indexSpecs))
+//@ loop 2 invariant USets(r, addIndexes, removeIndexes, oldRow, m, uuid, rangeindex + 1, len(r.indexSpecs))
+//@ loop 2 invariant UUUID(r, addIndexes, oldRow, m, uuid, rangeindex + 1, len(r.indexSpecs))
+//@ loop 2 invariant UDistinct(r, addIndexes, oldRow, m, rangeindex + 1, len(r.indexSpecs))
+//@ loop 2 invariant USep(r, addIndexes, oldRow, m, rangeindex + 1, len(r.indexSpecs))
+//@ loop 2 invariant forall i: int, v: interface{}, u: string :: 0 <= i && i < len(r.indexSpecs) ==> (InIdx(r, i, v, u) == ite(i <= rangeindex, UDone(r, oldRow, m, uuid, i, v, u), old(InIdx(r, i, v, u))))
+//@ loop 3 invariant (uuid in r.cache) && oldRow != nil && (forall c: []model.ColumnKey :: vfiOK(oldRow, c) == vfiOK(r.cache[uuid], c) && (vfiOK(oldRow, c) ==> vfi(oldRow, c) == vfi(r.cache[uuid], c)))
+//@ loop 3 invariant SpecsSame(r)
+//@ loop 3 invariant IdxWFMaps(r)
+//@ loop 3 invariant IdxWFSets(r)
+//@ loop 3 invariant IdxWFSetsDistinct(r)
+//@ loop 3 invariant IdxOldMaps(r)
+//@ loop 3 invariant StagingWF(addIndexes) && StagingWF(removeIndexes)
+//@ loop 3 invariant StagingCovers(r, addIndexes) && StagingCovers(r, removeIndexes)
+//@ loop 3 invariant forall x: index, y: index :: (x in addIndexes) && (y in removeIndexes) ==> addIndexes[x] != removeIndexes[y]
+//@ loop 3 invariant UOK(r, oldRow, m, rangeindex2 + 1, len(r.indexSpecs))
+//@ loop 3 invariant UKeysAdd(r, addIndexes, oldRow, m, rangeindex2 + 1, len(r.indexSpecs))
+//@ loop 3 invariant UKeysRem(r, removeIndexes, oldRow, m, rangeindex2 + 1, len(r.indexSpecs))
+//@ loop 3 invariant USets(r, addIndexes, removeIndexes, oldRow, m, uuid, rangeindex2 + 1, len(r.indexSpecs))
+//@ loop 3 invariant UUUID(r, addIndexes, oldRow, m, uuid, rangeindex2 + 1, len(r.indexSpecs))
+//@ loop 3 invariant UDistinct(r, addIndexes, oldRow, m, rangeindex2 + 1, len(r.indexSpecs))
+//@ loop 3 invariant forall v: interface{} :: visited(v) ==> (v in addIndexes[r.indexSpecs[rangeindex2 + 1].index])
+//@ loop 3 invariant USep(r, addIndexes, oldRow, m, rangeindex2 + 2, len(r.indexSpecs))
+//@ loop 3 invariant !visited(vfi(m, r.indexSpecs[rangeindex2 + 1].columns)) ==> USep(r, addIndexes, oldRow, m, rangeindex2 + 1, rangeindex2 + 1)
+//@ loop 3 invariant visited(vfi(m, r.indexSpecs[rangeindex2 + 1].columns)) && r.indexSpecs[rangeindex2 + 1].indexType == 0 ==> ((vfi(m, r.indexSpecs[rangeindex2 + 1].columns) in r.indexes[r.indexSpecs[rangeindex2 + 1].index]) && r.indexes[r.indexSpecs[rangeindex2 + 1].index][vfi(m, r.indexSpecs[rangeindex2 + 1].columns)] == addIndexes[r.indexSpecs[rangeindex2 + 1].index][vfi(m, r.indexSpecs[rangeindex2 + 1].columns)])
+//@ loop 3 invariant r.indexSpecs[rangeindex2 + 1].indexType != 0 ==> USep(r, addIndexes, oldRow, m, rangeindex2 + 1, rangeindex2 + 1)
+//@ loop 3 invariant forall i: int, v: interface{}, u: string :: 0 <= i && i < len(r.indexSpecs) ==> (InIdx(r, i, v, u) == ite(i <= rangeindex2, UDone(r, oldRow, m, uuid, i, v, u), ite(i == rangeindex2 + 1 && visited(vfi(m, r.indexSpecs[i].columns)), UAdded(r, oldRow, m, uuid, i, v, u), old(InIdx(r, i, v, u)))))
+//@ loop 4 invariant (uuid in r.cache) && oldRow != nil && (forall c: []model.ColumnKey :: vfiOK(oldRow, c) == vfiOK(r.cache[uuid], c) && (vfiOK(oldRow, c) ==> vfi(oldRow, c) == vfi(r.cache[uuid], c)))
+//@ loop 4 invariant SpecsSame(r)
+//@ loop 4 invariant IdxWFMaps(r)
+//@ loop 4 invariant IdxWFSets(r)
+//@ loop 4 invariant IdxWFSetsDistinct(r)
+//@ loop 4 invariant IdxOldMaps(r)
+//@ loop 4 invariant StagingWF(addIndexes) && StagingWF(removeIndexes)
+//@ loop 4 invariant StagingCovers(r, addIndexes) && StagingCovers(r, removeIndexes)
+//@ loop 4 invariant forall x: index, y: index :: (x in addIndexes) && (y in removeIndexes) ==> addIndexes[x] != removeIndexes[y]
+//@ loop 4 invariant UOK(r, oldRow, m, rangeindex2 + 1, len(r.indexSpecs))
+//@ loop 4 invariant UKeysAdd(r, addIndexes, oldRow, m, rangeindex2 + 1, len(r.indexSpecs))
+//@ loop 4 invariant UKeysRem(r, removeIndexes, oldRow, m, rangeindex2 + 1, len(r.indexSpecs))
+//@ loop 4 invariant USets(r, addIndexes, removeIndexes, oldRow, m, uuid, rangeindex2 + 1, len(r.indexSpecs))
+//@ loop 4 invariant UUUID(r, addIndexes, oldRow, m, uuid, rangeindex2 + 1, len(r.indexSpecs))
+//@ loop 4 invariant UDistinct(r, addIndexes, oldRow, m, rangeindex2 + 1, len(r.indexSpecs))
+//@ loop 4 invariant forall v: interface{} :: visited(v) ==> (v in removeIndexes[r.indexSpecs[rangeindex2 + 1].index])
+//@ loop 4 invariant USep(r, addIndexes, oldRow, m, rangeindex2 + 2, len(r.indexSpecs))
+//@ loop 4 invariant vfi(oldRow, r.indexSpecs[rangeindex2 + 1].columns) != vfi(m, r.indexSpecs[rangeindex2 + 1].columns) && r.indexSpecs[rangeindex2 + 1].indexType == 0 ==> ((vfi(m, r.indexSpecs[rangeindex2 + 1].columns) in r.indexes[r.indexSpecs[rangeindex2 + 1].index]) && r.indexes[r.indexSpecs[rangeindex2 + 1].index][vfi(m, r.indexSpecs[rangeindex2 + 1].columns)] == addIndexes[r.indexSpecs[rangeindex2 + 1].index][vfi(m, r.indexSpecs[rangeindex2 + 1].columns)])
+//@ loop 4 invariant r.indexSpecs[rangeindex2 + 1].indexType != 0 ==> USep(r, addIndexes, oldRow, m, rangeindex2 + 1, rangeindex2 + 1)
+//@ loop 4 invariant forall i: int, v: interface{}, u: string :: 0 <= i && i < len(r.indexSpecs) ==> (InIdx(r, i, v, u) == ite(i <= rangeindex2, UDone(r, oldRow, m, uuid, i, v, u), ite(i == rangeindex2 + 1, ite(vfi(oldRow, r.indexSpecs[i].columns) != vfi(m, r.indexSpecs[i].columns), UAdded(r, oldRow, m, uuid, i, v, u) && !(u == uuid && v == vfi(oldRow, r.indexSpecs[i].columns) && visited(v)), old(InIdx(r, i, v, u))), old(InIdx(r, i, v, u)))))
